@@ -852,8 +852,109 @@ func ruleNDeepest(c *engine.Context) *report.Rule {
 			}
 		}
 	}
-	// the helper itself: prefers smaller remaining text, and on ties replaces only a type-mismatch error
+	// (2) no branch error is dropped before the ranking: from the `err != nil` edge of a step inside a
+	// fan-out loop, every path to the next iteration hands err to the helper, or skips it only because
+	// the sink already holds results
+	for _, fn := range retrieveFamily(c) {
+		sink := sinkParam(p, fn)
+		for _, l := range cfgutil.Loops(fn) {
+			for b := range l.Blocks {
+				ifi, ok := b.Instrs[len(b.Instrs)-1].(*ssa.If)
+				if !ok {
+					continue
+				}
+				bo, ok := ifi.Cond.(*ssa.BinOp)
+				if !ok || bo.Op != token.NEQ {
+					continue
+				}
+				var errV ssa.Value
+				if cst, isC := bo.Y.(*ssa.Const); isC && cst.IsNil() {
+					errV = bo.X
+				} else if cst, isC := bo.X.(*ssa.Const); isC && cst.IsNil() {
+					errV = bo.Y
+				}
+				if errV == nil || !types.Identical(errV.Type(), p.Roles.RuntimeErrIface) {
+					continue
+				}
+				if _, isCall := errV.(*ssa.Call); !isCall {
+					continue
+				}
+				if !l.Blocks[errV.(*ssa.Call).Block()] {
+					continue
+				}
+				r.Instances++
+				bad := ""
+				var badAt ssa.Instruction
+				seen := map[*ssa.BasicBlock]bool{}
+				var walk func(x *ssa.BasicBlock)
+				walk = func(x *ssa.BasicBlock) {
+					if seen[x] || bad != "" {
+						return
+					}
+					seen[x] = true
+					if x == l.Header || !l.Blocks[x] {
+						return // next iteration / loop left: only reachable here through an allowed skip or after the helper
+					}
+					for _, ins := range x.Instrs {
+						if call, isCall := ins.(*ssa.Call); isCall && call.Call.StaticCallee() == helper {
+							for _, a := range call.Call.Args {
+								if a == errV {
+									return
+								}
+							}
+						}
+					}
+					last := x.Instrs[len(x.Instrs)-1]
+					switch t := last.(type) {
+					case *ssa.If:
+						if !isSinkLenTest(p, t.Cond, sink) {
+							bad, badAt = "the error is handed to the ranking only under an additional condition", t
+							return
+						}
+						// only the "sink still empty" edge must reach the helper
+						emptyEdge := 0
+						if bo := t.Cond.(*ssa.BinOp); bo.Op != token.EQL {
+							emptyEdge = 1
+						}
+						walk(x.Succs[emptyEdge])
+					case *ssa.Jump:
+						// straight on without the helper
+						if x.Succs[0] == l.Header {
+							bad, badAt = "the error is discarded", last
+							return
+						}
+						walk(x.Succs[0])
+					case *ssa.Return, *ssa.Panic:
+					}
+				}
+				walk(b.Succs[0])
+				r.Oblige(bad == "")
+				if bad != "" {
+					r.Violation(fmt.Sprintf("branch error of loop #%d in %s does not always reach the ranking", loopOrdinal(fn, l), load.FuncName(fn)), p.RelPos(badAt.Pos()),
+						"after a failed step inside the fan-out loop %s: every branch error must be ranked by %s (unless results already exist), otherwise the reported step is not the deepest failing one", bad, helper.Name())
+				}
+			}
+		}
+	}
 	return r
+}
+
+// isSinkLenTest: cond compares len(sink.result) with 0.
+func isSinkLenTest(p *load.Program, cond ssa.Value, sink *ssa.Parameter) bool {
+	bo, ok := cond.(*ssa.BinOp)
+	if !ok {
+		return false
+	}
+	for _, side := range []ssa.Value{bo.X, bo.Y} {
+		if x, isLen := lenArg(side); isLen {
+			if ld, isLd := x.(*ssa.UnOp); isLd {
+				if fa, isFA := ld.X.(*ssa.FieldAddr); isFA && (sink == nil || fa.X == ssa.Value(sink)) {
+					return true
+				}
+			}
+		}
+	}
+	return false
 }
 
 func isIntT(t types.Type) bool {
